@@ -1109,6 +1109,134 @@ def prescribed_values(inp):
     return {"ok": witness is None, "cases": cases, "witness": witness}
 
 
+def supplied_part(inp):
+    """property C04 natively: a junction gets a pressure result iff an independent search (written here, from the element
+    tables only) reaches it from an in-service pressure-fixing element through in-service, open, hydraulically connecting
+    branches; the results of the supplied part equal those of the network rebuilt WITHOUT everything else; a network
+    without any supplied junction raises"""
+    import pandapipes as pp
+    cases, witness = 0, None
+    J = [10, 4, 7, 1, 12, 3, 8, 15, 20]    # junction labels (unsorted); 15: behind a heat consumer, 20: inlet of a pressure controller
+
+    def build(flags, keep=None):
+        """keep: None = everything; else a predicate (table, key) -> bool deciding which elements are created"""
+        k = keep or (lambda t, i: True)
+        net = pp.create_empty_network(fluid="water")
+        for q, lab in enumerate(J):
+            if k("junction", lab):
+                pp.create_junction(net, pn_bar=3., tfluid_k=300., index=lab, in_service=not (q == 6 and not flags["j6"]))
+        def has(*labs):
+            return all(k("junction", x) for x in labs)
+        if has(J[0]) and k("ext_grid", 0):
+            pp.create_ext_grid(net, J[0], p_bar=5., t_k=300., type="pt", index=0)
+        if has(J[5]) and k("ext_grid", 1):
+            pp.create_ext_grid(net, J[5], p_bar=4.5, t_k=300., type="pt", index=1, in_service=flags["eg1"])
+        if has(J[3]) and k("ext_grid", 2):
+            pp.create_ext_grid(net, J[3], t_k=300., type="t", index=2)            # fixes no pressure
+        pipes = {5: (J[0], J[1], flags["pa"]), 2: (J[1], J[2], True), 9: (J[2], J[3], flags["pb"]), 0: (J[4], J[5], True),
+                 6: (J[3], J[6], flags["j6"])}        # consistent flags: a branch at an out-of-service junction is out of service
+        for idx, (a, b, ins) in pipes.items():
+            if has(a, b) and k("pipe", idx):
+                pp.create_pipe_from_parameters(net, a, b, 0.2, 100., index=idx, in_service=ins)
+        if has(J[1]) and 2 in net.pipe.index and k("valve", 0):
+            pp.create_valve(net, J[1], 2, "pi", 100., opened=flags["vpi"], index=0)
+        if has(J[3], J[4]) and k("valve", 1):
+            pp.create_valve(net, J[3], J[4], "ju", 100., opened=flags["vju"], index=1)
+        if has(J[2], J[4]) and k("flow_control", 0):
+            pp.create_flow_control(net, J[2], J[4], 0.1, control_active=flags["fca"], in_service=flags["fci"], index=0)
+        if has(J[2], J[7]) and k("heat_consumer", 0):
+            pp.create_heat_consumer(net, J[2], J[7], qext_w=1000., deltat_k=10., index=0)      # never connects hydraulically
+        if has(J[8], J[4]) and k("press_control", 0):
+            pp.create_pressure_control(net, J[8], J[4], J[4], 3.0, index=0)                    # directed: its inlet is never supplied
+        for q, lab in enumerate(J):
+            if has(lab) and k("sink", q):
+                pp.create_sink(net, lab, 0.05 + 0.01 * q, index=q, in_service=not (q == 6 and not flags["j6"]))
+        return net
+
+    def search(net):
+        oos = set(net.junction.index[~net.junction.in_service])
+        adj = {int(x): set() for x in net.junction.index if x not in oos}
+        def link(a, b, both=True):
+            a, b = int(a), int(b)
+            if a in adj and b in adj:
+                adj[a].add(b)
+                if both:
+                    adj[b].add(a)
+        closed = set(int(r.element) for _, r in net.valve.iterrows() if r.et == "pi" and not r.opened) if len(net.valve) else set()
+        for idx, r in net.pipe.iterrows():
+            if r.in_service and int(idx) not in closed:
+                link(r.from_junction, r.to_junction)
+        for idx, r in net.valve.iterrows():
+            if r.et == "ju" and r.opened:
+                link(r.junction, r.element)
+        if "flow_control" in net:
+            for idx, r in net.flow_control.iterrows():
+                if r.in_service and not r.control_active:
+                    link(r.from_junction, r.to_junction)
+        roots = [int(r.junction) for _, r in net.ext_grid.iterrows() if r.in_service and r.type in ("p", "pt") and int(r.junction) in adj]
+        seen, work = set(roots), list(roots)
+        while work:
+            u = work.pop()
+            for v in adj[u]:
+                if v not in seen:
+                    seen.add(v)
+                    work.append(v)
+        return seen
+
+    unsolved = []
+    names = ["pa", "pb", "vpi", "vju", "fca", "fci", "eg1", "j6"]
+    fixed_on = set(inp.get("fixed_on", []))
+    for pat in itertools.product([True, False], repeat=len(names)):
+        flags = dict(zip(names, pat))
+        if any(not flags[f_] for f_ in fixed_on):
+            continue
+        cases += 1
+        net = build(flags)
+        want = search(net)
+        off = {k_: v for k_, v in flags.items() if not v}
+        try:
+            pp.pipeflow(net)
+            got = set(int(x) for x in net.res_junction.index[~net.res_junction.p_bar.isnull()])
+            err = None
+        except Exception as e:  # noqa
+            got, err = set(), "%s: %s" % (type(e).__name__, str(e)[:100])
+        if not want:
+            ok = err is not None and err.startswith("PipeflowNotConverged")
+            if not ok and witness is None:
+                witness = {"flags_off": off, "observed": "no junction is supplied but the calculation %s" % (err or "returned")}
+            continue
+        if err is not None:
+            if err.startswith("PipeflowNotConverged") and "connected" not in err and "service" not in err:
+                unsolved.append(off)
+                continue            # numerically unsolved pattern: says nothing about connectivity (counted, see below)
+            if witness is None:
+                witness = {"flags_off": off, "observed": err, "supplied (independent search)": sorted(want)}
+            continue
+        if got != want:
+            if witness is None:
+                witness = {"flags_off": off, "junctions with a pressure result": sorted(got), "supplied (independent search)": sorted(want)}
+            continue
+        # the supplied part alone gives the same results
+        if cases % 4 == 0:
+            sub = build(flags, keep=lambda t, i: (t != "junction" or i in want) and not (t == "ext_grid" and i == 1 and not flags["eg1"]))
+            for idx in list(sub.pipe.index[~sub.pipe.in_service]):
+                sub.pipe.drop(idx, inplace=True)
+            try:
+                pp.pipeflow(sub)
+                a = net.res_junction.loc[sorted(want), "p_bar"].values
+                b = sub.res_junction.loc[sorted(want), "p_bar"].values
+                if not np.allclose(a, b, rtol=1e-9, atol=1e-10) and witness is None:
+                    witness = {"flags_off": off, "observed": "pressures of the supplied part differ from the network without the rest",
+                               "full": a.tolist(), "reduced": b.tolist()}
+            except Exception as e:  # noqa
+                if witness is None:
+                    witness = {"flags_off": off, "observed": "network without the unsupplied part: %s: %s" % (type(e).__name__, str(e)[:100])}
+    if len(unsolved) > int(inp.get("max_unsolved", 0)) and witness is None:
+        witness = {"observed": "%d of %d flag patterns with a supplied part did not converge (every one of them converges on the "
+                               "reference tree): the supplied part is not calculated" % (len(unsolved), cases), "first": unsolved[0]}
+    return {"ok": witness is None, "cases": cases, "witness": witness, "unsolved": len(unsolved)}
+
+
 def main():
     inp = json.load(sys.stdin)
     fn = globals()[inp["what"]]
